@@ -372,6 +372,14 @@ class Prop:
             form = rng.choice(["list", "list", "varargs"])
             cls = "meshgrid-varargs-vector-first" if (form == "varargs" and "v" in axes[0]) else "plain"   # D22
             mk("meshgrid", axes=axes, form=form, cls=cls, argpat=pat)
+            if pat != "ints" and rng.random() < 0.4:
+                # float64 axes holding values float32 cannot represent, under a float32 session default
+                ax2 = [dict(a) for a in axes]
+                for a in ax2:
+                    if "v" in a:
+                        a["v"] = [v + rng.choice([0.1, 16777217.0, 1.0 / 3]) for v in a["v"]]
+                mk("meshgrid", axes=ax2, form=form, cls=cls, argpat=pat)
+                cases[-1]["default_dtype"] = cases[-1]["tags"]["default_dtype"] = "float32"
 
         # ---- mask
         for N in (1, 2):
@@ -429,6 +437,10 @@ class Prop:
             for op in ("ones", "zeros"):
                 mk(op, shape=shape, form=rng.choice(["list", "varargs"]), cls="creation")
             mk("full", shape=shape, fill=rng.choice([0, 1, -2.5, 2, 7.25, -1]), cls="creation")
+            if rng.random() < 0.5:       # the constant must not depend on the requested Tucker ranks
+                mk(rng.choice(["ones", "full"]), shape=shape, fill=rng.choice([1, -2.5, 3]), form="list", cls="creation",
+                   tucker=rng.choice([1, 2, 3]))
+                cases[-1]["tags"]["tucker"] = True
         for _ in range(15 * Q):
             t = rt(shp(rng.randint(1, 4)))
             op = rng.choice(["ones_like", "zeros_like", "full_like"])
@@ -563,8 +575,12 @@ class Prop:
             return {"outs": [self._out(g) for g in r]}
         if op in ("ones", "zeros"):
             f = getattr(tn, op)
+            if case.get("tucker"):
+                return one(f(case["shape"], ranks_tucker=case["tucker"]))
             return one(f(case["shape"]) if case["form"] == "list" else f(*case["shape"]))
         if op == "full":
+            if case.get("tucker"):
+                return one(tn.full(case["shape"], case["fill"], ranks_tucker=case["tucker"]))
             return one(tn.full(case["shape"], case["fill"]))
         if op in ("ones_like", "zeros_like"):
             return one(getattr(tn, op)(t))
